@@ -192,7 +192,32 @@ package jd
 //@   zip a b
 //@   requires validNode(a) && validNode(b)
 //@   ensures_bounded ret0 == ""
-//@   carries C17 C18
+//@   carries C17
+
+//@ contract verifV1ScaleRFC
+//@   bounded
+//@   universe a verifV1ScaleA()
+//@   universe b verifV1ScaleB()
+//@   zip a b
+//@   requires validNode(a) && validNode(b)
+//@   ensures_bounded ret0 == ""
+//@   carries C18
+
+//@ contract verifV1NumberEdges
+//@   bounded
+//@   universe a verifNumberEdgeDocs()
+//@   universe b verifNumberEdgeDocs()
+//@   requires validNode(a) && validNode(b)
+//@   ensures_bounded ret0 == ""
+//@   carries C17
+
+//@ contract verifV1NumberEdgesRFC
+//@   bounded
+//@   universe a verifNumberEdgeDocs()
+//@   universe b verifNumberEdgeDocs()
+//@   requires validNode(a) && validNode(b)
+//@   ensures_bounded ret0 == ""
+//@   carries C18
 
 //@ contract verifV1RandMerge
 //@   bounded
